@@ -200,6 +200,10 @@ func (self *visitorUserNode) OnBool(v bool) error {
 		self.inskip = false
 		return nil
 	}
+	// NOTICE: the value of a repeated field is an array only, a single element doesn't stand for it
+	if self.globalFieldDesc != nil && self.globalFieldDesc.Type().IsList() {
+		return newError(meta.ErrDismatchType, fmt.Sprintf("repeated field '%s' expects a json array", self.globalFieldDesc.Name()), nil)
+	}
 
 	var err error
 	top := self.stk[self.sp]
@@ -237,6 +241,10 @@ func (self *visitorUserNode) OnString(v string) error {
 	if self.inskip {
 		self.inskip = false
 		return nil
+	}
+	// NOTICE: the value of a repeated field is an array only, a single element doesn't stand for it
+	if self.globalFieldDesc != nil && self.globalFieldDesc.Type().IsList() {
+		return newError(meta.ErrDismatchType, fmt.Sprintf("repeated field '%s' expects a json array", self.globalFieldDesc.Name()), nil)
 	}
 	var err error
 	top := self.stk[self.sp].state.fieldDesc
@@ -279,6 +287,10 @@ func (self *visitorUserNode) OnInt64(v int64, n json.Number) error {
 	if self.inskip {
 		self.inskip = false
 		return nil
+	}
+	// NOTICE: the value of a repeated field is an array only, a single element doesn't stand for it
+	if self.globalFieldDesc != nil && self.globalFieldDesc.Type().IsList() {
+		return newError(meta.ErrDismatchType, fmt.Sprintf("repeated field '%s' expects a json array", self.globalFieldDesc.Name()), nil)
 	}
 	var err error
 	top := self.stk[self.sp]
@@ -378,6 +390,10 @@ func (self *visitorUserNode) OnFloat64(v float64, n json.Number) error {
 		self.inskip = false
 		return nil
 	}
+	// NOTICE: the value of a repeated field is an array only, a single element doesn't stand for it
+	if self.globalFieldDesc != nil && self.globalFieldDesc.Type().IsList() {
+		return newError(meta.ErrDismatchType, fmt.Sprintf("repeated field '%s' expects a json array", self.globalFieldDesc.Name()), nil)
+	}
 	var err error
 	top := self.stk[self.sp]
 	fieldDesc := self.globalFieldDesc
@@ -449,6 +465,10 @@ func (self *visitorUserNode) OnFloat64(v float64, n json.Number) error {
 func (self *visitorUserNode) OnObjectBegin(capacity int) error {
 	if self.inskip {
 		return ast.VisitOPSkip
+	}
+	// NOTICE: the value of a repeated field is an array only, a single element doesn't stand for it
+	if self.globalFieldDesc != nil && self.globalFieldDesc.Type().IsList() {
+		return newError(meta.ErrDismatchType, fmt.Sprintf("repeated field '%s' expects a json array", self.globalFieldDesc.Name()), nil)
 	}
 	var err error
 	fieldDesc := self.globalFieldDesc
